@@ -268,6 +268,10 @@ def _weights(chk):
 
 
 def _stats(chk):
+    # multiplying the whole input by a constant changes no fraction and no component: nothing computed from the data is
+    # compared with an absolute machine epsilon
+    from .common import absolute_cutoffs
+    absolute_cutoffs(chk, "SCALE.cutoff.relative", "the same data in smaller units (x 1e-8) falls below it, whitening drops directions and fractions / correlations change with the unit")
     pm = chk.pm
     sc = pm.cls("xeofs.preprocessing.scaler.Scaler")
     fit = sc.methods["fit"]
